@@ -989,6 +989,16 @@ func (e *Exec) doQuery(c *Cmd, sl *slots) string {
 			return "nil"
 		}
 		return hx(id)
+	case "samesize":
+		// q samesize <seg> <seg2>: the generator's premise that two in-memory segments have images of the
+		// same length (a check of the generator, not of the library)
+		s2, err := e.seg(c.Pos[2])
+		if err != nil {
+			return "scripterror:noseg"
+		}
+		m1, _, _, _, _, _ := zap.VerifSegmentMem(sg)
+		m2, _, _, _, _, _ := zap.VerifSegmentMem(s2)
+		return b01(len(m1) == len(m2))
 	case "docids":
 		// q docids <seg> n=<count> visit=<doc>: DocID of documents 0..n-1, every answer KEPT; then one
 		// more DocID and a stored-field visit of <doc>; only then are the kept answers looked at
